@@ -36,6 +36,9 @@ VecApi == {
   E("trexp2", "base", << {1, 3} >>),         E("skew", "base", << {1, 3} >>),
   E("skewa", "base", << {3, 6} >>),          E("delta2tr", "base", << {6} >>),
   E("trotx(t=)", "base", << {3} >>),         E("trot2(t=)", "base", << {2} >>),
+  E("troty(t=)", "base", << {3} >>),         E("trotz(t=)", "base", << {3} >>),
+  E("SE3.Rx(t=)", "class", << {3} >>),         E("SE3.Ry(t=)", "class", << {3} >>),
+  E("SE3.Rz(t=)", "class", << {3} >>),
   E("rodrigues", "base", << {1, 3} >>),      E("rt2tr(t)", "base", << {3} >>),
   \* ---- base: quaternions
   E("pure", "base", << {3} >>),              E("qnorm", "base", << {4} >>),
@@ -134,7 +137,9 @@ UnitIn  == {"rotx", "roty", "rotz", "trotx", "troty", "trotz", "rot2", "trot2", 
             "Twist2.exp(vector)"}
 UnitOut == {"tr2rpy", "tr2eul", "tr2angvec", "tr2xyt", "SO3.rpy", "SO3.eul", "SO3.angvec", "SE3.rpy", "SE3.eul",
             "SE3.angvec", "SO2.theta", "SE2.theta", "SE2.xyt", "UnitQuaternion.rpy", "UnitQuaternion.eul",
-            "UnitQuaternion.angvec"}
+            "UnitQuaternion.angvec",
+            \* the same accessors on an object holding several values (a separate code path in each)
+            "SO2.theta(multi)", "SE2.theta(multi)", "SO3.rpy(multi)", "SO3.eul(multi)", "SE3.rpy(multi)", "SE3.eul(multi)"}
 OrderIn == {"rpy2r", "rpy2tr", "tr2rpy", "SO3.RPY", "SE3.RPY", "UnitQuaternion.RPY", "SO3.rpy", "SE3.rpy",
             "UnitQuaternion.rpy"}
 GoodOrders == {"zyx", "xyz", "yxz", "vehicle", "arm", "camera"}
